@@ -164,7 +164,10 @@ HARNESSES = [
         strength="B(one planted 4-byte repeat at distance %s, 4 input bytes; complete in format, level, strategy, window bits, dictionary size)" % dd,
         note="LZOxide::write_code, flush_block, copy_from_slice replaced by recording contract models; window re-allocated as Box::new arrays (same all-zero state) so CBMC folds reads")
       for (n, dd) in (("k_fast_cap_300", "300"), ("k_fast_cap_5000", "5000"))],
-    H("k_normal_step_zeros", "K-normalstep", ["X"]), H("k_normal_step_distinct", "K-normalstep", ["X"]), H("k_fast_step", "K-faststep", ["X"]),
+    H("k_normal_step_zeros", "K-normalstep", ["C01", "C02", "C10", "C11", "C12"], tier="thorough", cost=700, timeout=2400,
+      fns=["compress_normal (whole loop on 2-3 bytes from a symbolic parser state: carried lazy match, lookahead, dictionary size, flush mode)"],
+      strength="B(input 00 00 00 / 00 00 at window position 40000 over an all-zero window; complete in format, level, strategy, window bits, dictionary size, carried lazy match, flush mode, matcher results)",
+      note="find_match / record_match / record_literal / flush_block replaced by contract models; ~11 min, 7.5 GB"),
     # ---- K-huff ----
     H("k_enforce_max_code_size_kraft", "K-huff", ["C10"], fns=["HuffmanOxide::enforce_max_code_size"], cost=50, timeout=900,
       strength="B(<= 9 codes, tree depths <= 9, limit 7; complete over every depth histogram of a full binary tree in that range)"),
